@@ -2,6 +2,13 @@
 
 package gortsplib
 
+import (
+	"crypto/rand"
+
+	"github.com/bluenviron/gortsplib/v5/pkg/base"
+	"github.com/bluenviron/gortsplib/v5/pkg/headers"
+)
+
 // Accessors for check C11 (the server survives hostile control connections and cleans up after them).
 // Read-only counts; no logic of their own.
 
@@ -34,4 +41,23 @@ func (s *Server) VerifC11UDPClients() (rtp, rtcp int) {
 // library goroutine blocked, as established by the harness' Settle barrier).
 func (s *Server) VerifC11Counts() (conns, sessions, httpReadChannels int) {
 	return len(s.conns), len(s.sessions), len(s.httpReadChannels)
+}
+
+// VerifC11KeyMgmt returns a well-formed KeyMgmt header value (a fresh random SRTP master key, the given
+// SSRCs, the current time of the library's clock) built with the library's own contextToMikey: what a
+// well-behaved RTSPS client sends in SETUP.
+func VerifC11KeyMgmt(url string, ssrcs []uint32) (base.HeaderValue, error) {
+	key := make([]byte, srtpKeyLength)
+	if _, err := rand.Read(key); err != nil {
+		return nil, err
+	}
+	ctx := &wrappedSRTPContext{key: key, ssrcs: ssrcs}
+	if err := ctx.initialize(); err != nil {
+		return nil, err
+	}
+	mk, err := contextToMikey(ctx)
+	if err != nil {
+		return nil, err
+	}
+	return headers.KeyMgmt{URL: url, MikeyMessage: mk}.Marshal()
 }
